@@ -165,14 +165,16 @@ Section Group.
   Qed.
 
   Lemma bad_group_label_none : forall l,
+    (forall k v, In (k, v) l -> n_alias k = None) ->      (* keys that are no aliases: nodeValue(key) = key.Value (cd8be7e) *)
     bad_group_label lname_ok lvalue_ok l = None ->
     forall k v, In (k, v) l -> lname_ok (n_value k) = true /\ n_value k <> "__name__" /\ lvalue_ok (node_value v) = true.
   Proof.
-    induction l as [|[k v] r IH]; intros H k0 v0 Hin; [destruct Hin|]. cbn [bad_group_label] in H.
+    induction l as [|[k v] r IH]; intros Hna H k0 v0 Hin; [destruct Hin|]. cbn [bad_group_label] in H.
+    rewrite (node_value_noalias k (Hna k v (or_introl eq_refl))) in H.
     destruct (negb (lname_ok (n_value k)) || (n_value k =? "__name__"))%bool eqn:E1; [discriminate|].
     apply orb_false_iff in E1. destruct E1 as [E1 E1']. apply negb_false_iff in E1. apply String.eqb_neq in E1'.
     destruct (negb (lvalue_ok (node_value v))) eqn:E2; [discriminate|]. apply negb_false_iff in E2.
-    destruct Hin as [X|X]; [inversion X; subst; auto|exact (IH H k0 v0 X)].
+    destruct Hin as [X|X]; [inversion X; subst; auto|exact (IH (fun k1 v1 H1 => Hna k1 v1 (or_intror H1)) H k0 v0 X)].
   Qed.
 
   Lemma dec_items_ok {A} (dec : node -> dres A) (P : A -> bool) : forall items,
@@ -304,15 +306,17 @@ Section Group.
         rewrite Tv in T. rewrite Dv in Hval, Hbad.
         rewrite (dec_strmap_deref str_ok null_ok vl) by (now rewrite Dv). rewrite Dv.
         clear Dv Tv Hsee Hkm. rename vl into vl0. rename vt into vl.
+        assert (Hkna : forall k v, In (k, v) (mapping_nodes vl) -> n_alias k = None).
+        { intros k v Hkv. exact (proj1 (plain_self k (proj1 (plain_pairs vl k v Hpv Hkv)))). }
         assert (Hne : forall k v, In (k, v) (mapping_nodes vl) -> n_value k <> "").
-        { intros k v Hkv E. destruct (bad_group_label_none _ Hbad k v Hkv) as (L1 & _). rewrite E in L1. congruence. }
+        { intros k v Hkv E. destruct (bad_group_label_none _ Hkna Hbad k v Hkv) as (L1 & _). rewrite E in L1. congruence. }
         assert (Ht : kind_mismatch vl KMapping = false) by (exact (km_of_kind vl KMapping (proj1 Hv) Kv)).
         destruct (strmap_of_validated str_ok null_ok H_str H_null "labels" vl 0 (0, 0) (or_introl Hpv) Ht Hval Hne) as [[K' _]|[_ E]].
         { rewrite Kv in K'. discriminate. }
         exists (pairs_text (mapping_nodes vl)). split; [exact E|].
         apply forallb_forall. intros [a0 b0] Hab. unfold pairs_text in Hab. apply in_map_iff in Hab.
         destruct Hab as ([kk vv] & E0 & Hkv). inversion E0; subst a0 b0.
-        destruct (bad_group_label_none _ Hbad kk vv Hkv) as (L1 & L2 & L3).
+        destruct (bad_group_label_none _ Hkna Hbad kk vv Hkv) as (L1 & L2 & L3).
         unfold label_ok. cbn [fst snd]. change (key_text (kk, vv)) with (n_value kk). rewrite L1.
         apply String.eqb_neq in L2. rewrite L2. cbn [negb andb]. unfold str_val.
         destruct (String.eqb (n_tag (deref vv)) nullTag); [exact H_lvalue_empty|].
